@@ -11,8 +11,11 @@ var Checks = map[string]Check{
 	"C03": {Fn: CheckC03},
 	"C04": {Fn: CheckC04},
 	"C05": {Fn: CheckC05},
+	"C09": {Fn: CheckC09},
 	"C10": {Fn: CheckC10},
 	"C11": {Fn: CheckC11},
+	"C12": {Fn: CheckC12},
+	"C13": {Fn: CheckC13},
 	"C14": {Fn: CheckC14},
 	"C16": {Fn: CheckC16},
 	"C17": {Fn: CheckC17},
